@@ -1,17 +1,21 @@
 #!/bin/bash
-# For each seeded change <Cnn-mk>: a scratch worktree of /repo's HEAD gets the change, the property's quick check runs
-# against that copy (VERIF_REPO), the verdict is printed, the worktree is removed.  /repo itself and /verif/evidence are not touched.
+# For each seeded change <Cnn-mk> (or <Cnn-mk>@<Cpp> to run another property's check against it): a scratch worktree of
+# /repo's HEAD gets the change, the quick check runs against that copy (VERIF_REPO), the verdict is printed, the worktree
+# is removed.  /repo itself and /verif/evidence are not touched.  SWEEP_PAR=n runs n seeds at a time.
 cd /verif
-for x in "$@"; do
-  P=${x%%-*}
-  PATCH=/verif/seeded/$x/patch.diff
-  [ -f $PATCH ] || { echo "RESULT $x no-such-seed"; continue; }
+one() {
+  x=$1
+  S=${x%%@*}; P=${S%%-*}; [[ $x == *@* ]] && P=${x##*@}
+  PATCH=/verif/seeded/$S/patch.diff
+  [ -f $PATCH ] || { echo "RESULT $x no-such-seed"; return; }
   WT=$(mktemp -d /tmp/sweep-XXXX)
   git -C /repo worktree add --detach $WT HEAD >/dev/null 2>&1
-  if ! git -C $WT apply $PATCH 2>/dev/null; then echo "RESULT $x patch-does-not-apply"; git -C /repo worktree remove --force $WT; continue; fi
-  OUT=$(VERIF_REPO=$WT VERIF_EVIDENCE_DIR=/tmp/ev_sweep timeout 1800 ./check $P --tier quick 2>&1); RC=$?
+  if ! git -C $WT apply $PATCH 2>/dev/null; then echo "RESULT $x patch-does-not-apply"; git -C /repo worktree remove --force $WT; return; fi
+  OUT=$(VERIF_REPO=$WT VERIF_EVIDENCE_DIR=/tmp/ev_sweep/$x timeout 1800 ./check $P --tier quick 2>&1); RC=$?
   NV=$(echo "$OUT" | grep -c "^VIOLATION")
-  echo "RESULT $x rc=$RC violations=$NV $(echo "$OUT" | tail -1)"
-  echo "$OUT" | grep "violated=[1-9]" | head -4
-  git -C /repo worktree remove --force $WT >/dev/null 2>&1; rm -rf $WT
-done
+  echo "RESULT $x rc=$RC violations=$NV $(echo "$OUT" | tail -1)
+$(echo "$OUT" | grep "violated=[1-9]" | head -4)"
+  git -C /repo worktree remove --force $WT >/dev/null 2>&1; rm -rf $WT /tmp/ev_sweep/$x
+}
+export -f one
+printf "%s\n" "$@" | xargs -P ${SWEEP_PAR:-1} -I{} bash -c 'one {}'
